@@ -704,3 +704,71 @@ def project_storage(d):
     if res["status"] != "ok":
         out.append({"e": "observe", "ok": False, "entries": [], "complete": False, "kind": "crash", "why": json.dumps(res["status"])[:300]})
     return out
+
+
+def project_search(sc, run):
+    """StepSizeSearchTrace vocabulary. Returns the list of lines of all searches of one chain."""
+    lines = []
+    cur = None     # state of the search being projected
+    for ev in run:
+        k = ev["ev"]
+        if k == "search_start":
+            cur = {"initial": f_from_bits(ev["initial"]), "target": f_from_bits(ev["target"]),
+                   "est0": ev["est"], "acc0": None}
+            lines.append({"e": "start"})
+        elif k == "search_try":
+            if cur is None:
+                lines.append({"e": "orphan_try"})
+                continue
+            step = f_from_bits(ev["step"])
+            acc = f_from_bits(ev["acc"])
+            kexp = 9999
+            if step > 0 and math.isfinite(step):
+                kk = round(math.log2(step / cur["initial"]))
+                try:
+                    if math.ldexp(cur["initial"], kk) == step:
+                        kexp = kk
+                except OverflowError:
+                    pass
+            if ev["res"] == "ok":
+                side = "above" if acc > cur["target"] else ("below" if acc < cur["target"] else "equal")
+                if acc != acc:
+                    side = "equal_nan"
+            else:
+                side = "below"
+            same = True
+            if ev["n"] == 0:
+                cur["acc0"] = (ev["acc"], ev["res"])
+            elif ev["n"] == 1 and cur["acc0"] is not None:
+                same = (cur["acc0"] == (ev["acc"], ev["res"]))
+            lines.append({"e": "try", "n": ev["n"], "dir": ev["dir"], "res": ev["res"], "side": side,
+                          "kexp": kexp, "hi": bool(step > 1e5), "lo": bool(step < 1e-10), "same": bool(same),
+                          "dbg": "acc=%r step=%r" % (acc, step)})
+        elif k == "search_end":
+            step = f_from_bits(ev["step"])
+            if ev["outcome"] == "fixed":
+                method = sc.get("settings", {}).get("adapt_options", {}).get("step_size_settings", {}) \
+                           .get("adapt_options", {}).get("method")
+                want = method["Fixed"] if isinstance(method, dict) else None
+                lines.append({"e": "end", "outcome": "fixed", "kexp": 0 if (want is None or want == step) else 9999,
+                              "est": "both"})
+                continue
+            if cur is None:
+                lines.append({"e": "orphan_end"})
+                continue
+            kexp = 9999
+            if step > 0 and math.isfinite(step):
+                kk = round(math.log2(step / cur["initial"]))
+                try:
+                    if math.ldexp(cur["initial"], kk) == step:
+                        kexp = kk
+                except OverflowError:
+                    pass
+            est = f_from_bits(ev["est"])
+            unchanged = (ev["est"] == cur["est0"])
+            final = close(est, step, rel=1e-12)
+            lines.append({"e": "end", "outcome": ev["outcome"], "kexp": kexp,
+                          "est": "both" if (unchanged and final) else "final" if final else "unchanged" if unchanged else "none",
+                          "dbg": "step=%r est=%r" % (step, est)})
+            cur = None
+    return lines
